@@ -12,6 +12,9 @@ func init() { register("C19", checkC19) }
 
 func checkC19(cx *Ctx, r *Report) {
 	w, fx := cx.W, cx.Fx
+	// the issuer a reply states is the one derived for this request: the metadata document served is built from this
+	// request's context, not kept from a request that arrived for another host (shared with C11)
+	cx.checkMetadataOfThisRequest(r)
 	r.Clauses = []string{
 		"static issuer: ValidateIssuer returns nil only for a non-empty string that net/url.Parse accepts, with a non-empty host, scheme https (or http when devLocalAllowed, which is allowInsecure && scheme == http), and only as the verdict of ValidateIssuerPath, which returns nil only for an empty fragment and an empty query; StaticIssuer returns that error and NewProvider propagates the factory's error, calling it with the provider's insecure flag",
 		"derived issuer: the closure returned by issuerFromForwardedOrHost builds its result only from the constants https / http / :// / '/', the configured path, Request.Host and element 0 of httpforwarded.ParseParameter(\"host\", Request.Header[<configured header>]) by plain concatenation; the scheme constant is chosen by allowInsecure alone; the header list consulted is exactly the configured one (none for IssuerFromHost)",
